@@ -427,8 +427,16 @@ func runC13(cfg runCfg) error {
 	for i := 0; i < cfg.n; i++ {
 		name := fmt.Sprintf("c13-%d-%d", cfg.seed, i)
 		lim := limits[r.Intn(len(limits))]
+		forceBig := i%6 == 4 // batched rounds under limits 1, 2, 3 in turn, every other one without any fault
+		if forceBig {
+			lim = int64(1 + (i/6)%3)
+		}
+		forceRoots := i%6 == 2 // root fields of two services with a lookup round below each, under a limit of one round fewer
+		if forceRoots {
+			lim = 1
+		}
 		env := envs[lim]
-		big := lim >= 1 && lim <= 3 && r.Intn(3) == 0
+		big := lim >= 1 && lim <= 3 && (r.Intn(3) == 0 || forceBig) && !forceRoots
 		do := dataOpts{nullProb: 0.1, safeStrings: true}
 		if big { // one lookup round carries more than 50 ids: single-entity lookups go out as several batch documents
 			do.bigType = "Movie"
@@ -456,6 +464,13 @@ func runC13(cfg runCfg) error {
 			doc, _ = loadQuery(env.gw.es.MergedSchema, q)
 			sum.Features["wide_nested_plan"]++
 		}
+		if forceRoots {
+			env.world.data = genData(r, env.fed, dataOpts{nullProb: 0, safeStrings: true})
+			q = []string{"query Op { movies { rating } topReview { helpful } }", "query Op { me { nick } movies { rating title } }", "query Op { topReview { helpful stars } movie(id: \"1\") { lead { name } } }"}[(i/6)%3]
+			vars = map[string]interface{}{}
+			doc, _ = loadQuery(env.gw.es.MergedSchema, q)
+			sum.Features["lookups_below_two_root_steps_at_limit_1"]++
+		}
 		if doc == nil {
 			continue
 		}
@@ -468,7 +483,10 @@ func runC13(cfg runCfg) error {
 		case 1:
 			cancelAt = r.Intn(4)
 		}
-		if big && r.Intn(2) == 0 {
+		if forceRoots {
+			faults, cancelAt = nil, -1
+		}
+		if big && ((!forceBig && r.Intn(2) == 0) || (forceBig && (i/18)%2 == 1)) {
 			// one document of a batched lookup round fails (or the whole service does): the other documents of the round,
 			// and whatever was started for them, must be gone with the response all the same
 			target := []string{"Movie#0", "Movie#1", "*"}[r.Intn(3)]
